@@ -342,7 +342,7 @@ Qed.
 (* ------------------------------------------------------------------ the parser on text
    without the delimiter, and on escaped values *)
 Lemma scan_text_nodelim : forall s acc out,
-  has_delim s = false -> scan (SText acc) out s = SOk (rev (RText (rev acc ++ s) :: out)).
+  has_delim s = false -> scan (SText acc) out s = (rev (RText (rev acc ++ s) :: out), Fin).
 Proof.
   induction s as [|x r IH]; intros acc out H.
   - simpl. now rewrite app_nil_r.
@@ -373,7 +373,7 @@ Lemma scan_qbrace acc out s :
   scan (SText acc) out (qbrace ++ s) = scan (SText []) (RAction [TStr [c_lbrace]] :: RText (rev acc) :: out) s.
 Proof. reflexivity. Qed.
 
-Lemma scan_quote : forall w acc out, scan (SText acc) out (quote w) = SOk (rev out ++ qraw acc w).
+Lemma scan_quote : forall w acc out, scan (SText acc) out (quote w) = (rev out ++ qraw acc w, Fin).
 Proof.
   induction w as [|x r IH]; intros acc out.
   - reflexivity.
